@@ -24,6 +24,11 @@ func genProg(t *rapid.T) Prog {
 	g := &gen{t: t, pr: &Prog{}, feat: map[string]bool{}}
 	g.gotoProg = g.chance(4)
 	g.tickProg = g.chance(50)
+	g.tswProg = g.chance(2)
+	g.mvalProg = g.chance(2)
+	if g.chance(1) && g.on(kBigOffsets) {
+		g.bigFirstFunc()
+	}
 	g.genStructs()
 	// helpers usable by global initialisers come first
 	if g.chance(60) {
@@ -80,6 +85,31 @@ func genProg(t *rapid.T) Prog {
 	return *g.pr
 }
 
+// bigFirstFunc: an exported function of more than 64 KiB of code in front of everything else, so that every other
+// function of the contract starts at an offset that needs more than 16 bits (scripts may be up to 512 KiB long). The
+// padding is a run of cheap statements: assignments of a 250 byte literal (254 bytes of code each) and increments.
+func (g *gen) bigFirstFunc() {
+	sig := &fsig{name: "F0", exported: true, params: []Field{{"a0", "int"}}, results: []string{"int"}, idx: len(g.funcs)}
+	lit := make([]byte, 250)
+	for i := range lit {
+		lit[i] = byte('a' + (i*7+i/26)%26)
+	}
+	body := []*Node{
+		{K: "define", S: "v1", A: []*Node{slitS("")}},
+		{K: "define", S: "v2", A: []*Node{ilit(0)}},
+	}
+	for i, k := 0, g.rng(262, 300, "bigk"); i < k; i++ {
+		body = append(body, &Node{K: "assign", S: "=", A: []*Node{vr("v1"), slitS(string(lit))}})
+	}
+	for i, k := 0, g.rng(0, 120, "bigpad"); i < k; i++ {
+		body = append(body, &Node{K: "incdec", S: "++", A: []*Node{vr("v2")}})
+	}
+	body = append(body, &Node{K: "return", A: []*Node{bin("+", bin("+", &Node{K: "len", A: []*Node{vr("v1")}}, vr("v2")), vr("a0"))}})
+	g.funcs = append(g.funcs, sig)
+	g.pr.Funcs = append(g.pr.Funcs, Func{Name: sig.name, Params: sig.params, Results: []Field{{Type: "int"}}, Body: body})
+	g.mark("big-first-func")
+}
+
 func (g *gen) genStructs() {
 	if !g.chance(55) {
 		return
@@ -96,8 +126,14 @@ func (g *gen) genStructs() {
 		t0.Fields = append(t0.Fields, Field{"b", "bool"})
 	}
 	if g.chance(60) {
-		t0.Fields = append(t0.Fields, Field{"n", "T1"})
+		t0.Fields = append(t0.Fields, Field{Name: "n", Type: "T1"})
 		g.mark("nested-struct")
+		if g.chance(40) {
+			// T1 embedded in T0: its fields and methods are promoted (v.x is v.T1.x, v.m() is v.T1.m())
+			t0.Fields[len(t0.Fields)-1] = Field{Name: "T1", Type: "T1"}
+			t0.Emb = "T1"
+			g.mark("embedded-struct")
+		}
 	}
 	if g.chance(30) {
 		t0.Fields = append(t0.Fields, Field{"c", "int"})
